@@ -28,6 +28,7 @@ structure NodeLit where
   file    : String           -- source of the `File:` expression
   guard   : String           -- `if` condition around the literal ("" when unconditional)
   added   : Bool             -- the literal is passed to `graph.AddNode` in the same clause
+  wiring  : List (String × String) := []   -- attribute field ↦ the expression it is set from (as written)
   deriving Repr
 
 /-- Implementation of an accessor in `generateProxyEnv`'s table. -/
